@@ -25,10 +25,11 @@ AtEnd  == l > N \/ Trace[l].ev = "Reset"
 Tr     == Trace[l - 1].t          \* id of the trace being explained (l is never a trace's first line)
 
 LEm(e)  == [c |-> e.c, a |-> e.a]
-LVaa(v) == [id |-> v.id, em |-> LEm(v.em)]
+LVaa(v) == [id |-> v.id, em |-> LEm(v.em), ok |-> (IF "ok" \in DOMAIN v THEN v.ok ELSE TRUE)]
 LFilters(f) == {LEm(f[i]) : i \in 1..Len(f)}
 
-Registered(s) == s \in DOMAIN pc /\ pc[s] # "start"
+\* the handler reached its loop: it was registered (a refused request never gets there)
+Registered(s) == s \in DOMAIN pc /\ pc[s] \notin {"start", "invalid", "refused"}
 Sending(s, id) == s \in DOMAIN pc /\ pc[s] = "send" /\ cur[s] # Nil /\ cur[s].id = id
 
 \* Nothing is in flight for any subscriber that is reading and has caught up; every cancelled stream has ended.
@@ -38,9 +39,9 @@ Quiescent(n) ==
     /\ pub.pc = "idle"
     /\ Cardinality({s \in subs : ~CanDrop(s)}) <= n /\ n <= Cardinality(subs)
     /\ \A s \in DOMAIN pc :
-          /\ pc[s] # "start"
+          /\ pc[s] \notin {"start", "invalid"}
           /\ (Reading(s) /\ ~lag[s]) => (q[s] = <<>> /\ pc[s] = "loop")
-          /\ cancelled[s] => pc[s] = "done"
+          /\ cancelled[s] => pc[s] \in {"done", "refused"}
 
 Same == UNCHANGED vars
 
@@ -48,10 +49,11 @@ ToSet(sq) == {sq[i] : i \in 1..Len(sq)}
 NoHint == [sent |-> {}, kick |-> {}]
 
 Logged(ln) ==
-    CASE ln.ev = "SubscribeCalled" -> SubscribeCalled(ln.a.s, LFilters(ln.a.f))
+    CASE ln.ev = "SubscribeCalled" -> SubscribeCalled(ln.a.s, LFilters(ln.a.f), IF "valid" \in DOMAIN ln.a THEN ln.a.valid ELSE TRUE)
       [] ln.ev = "Subscribed"      -> Registered(ln.a.s) /\ Same
       [] ln.ev = "PublishCalled"   -> PublishCalled(LVaa(ln.a.v)) /\ hint' = [sent |-> ToSet(ln.a.h_sent), kick |-> ToSet(ln.a.h_kick)]
-      [] ln.ev = "PublishReturned" -> pub.v # Nil /\ pub.v.id = ln.a.v /\ ~ln.a.err /\ PublishReturned
+      \* (Publish may report an error for bytes that do not decode; for a VAA it must not)
+      [] ln.ev = "PublishReturned" -> pub.v # Nil /\ pub.v.id = ln.a.v /\ (~ln.a.err \/ ~pub.v.ok) /\ PublishReturned
       [] ln.ev = "Received"        -> Sending(ln.a.s, ln.a.v) /\ StreamSend(ln.a.s)
       [] ln.ev = "SendBlocked"     -> Sending(ln.a.s, ln.a.v) /\ mode[ln.a.s] = "stall" /\ ~cancelled[ln.a.s] /\ Same
       [] ln.ev = "SendFailed"      -> Sending(ln.a.s, ln.a.v) /\ StreamFail(ln.a.s)
@@ -59,7 +61,7 @@ Logged(ln) ==
       [] ln.ev = "Resume"          -> Resume(ln.a.s)
       [] ln.ev = "Fail"            -> Fail(ln.a.s)
       [] ln.ev = "Cancel"          -> Cancel(ln.a.s)
-      [] ln.ev = "Removed"         -> ln.a.s \in DOMAIN pc /\ pc[ln.a.s] = "done" /\ Same
+      [] ln.ev = "Removed"         -> ln.a.s \in DOMAIN pc /\ pc[ln.a.s] \in {"done", "refused"} /\ Same
       [] ln.ev = "FloodInfo"       -> Same      \* informational: the queue capacity the harness read from the code
       [] ln.ev = "End"             -> Quiescent(ln.a.nsubs) /\ Same
       [] OTHER                     -> FALSE     \* "Timeout" (a reproduced stall) is explained by nothing
@@ -102,7 +104,7 @@ SubSilent ==
     \E s \in DOMAIN pc :
         \/ May(NextIs(s, {"Subscribed"})) /\ SubRegister(s)
         \/ NextIs(s, SendEvs) /\ SubTake(s)
-        \/ NextIs(s, {"Removed"}) /\ (SubCtxDone(s) \/ SubKicked(s) \/ Remove(s))
+        \/ NextIs(s, {"Removed"}) /\ (SubscribeRefused(s) \/ SubCtxDone(s) \/ SubKicked(s) \/ Remove(s))
 
 TraceInit == Init /\ hint = NoHint /\ \E i \in Starts : l = i + 1 /\ TLCSet(Trace[i].t, i + 1)
 
